@@ -572,6 +572,10 @@ class HistRun:
                     # (the one read that matters there is the old tree named by the token)
                     op["fault_sweep"] = 60
                     self.io_armed += 1
+                elif self.cfg.get("io_faults") and op["op"] in ("get", "head", "propfind", "report") and self.ops and self.ops[-1]["op"] in ("restart", "evict", "delete") and self.io_armed < 6 and self.frng.random() < 0.6:
+                    # the first read after a restart / cache eviction opens the stores again
+                    op["read_fault"] = {"after": self.frng.randint(1, 25), "errno": self.frng.choice(["EIO", "EMFILE"])}
+                    self.io_armed += 1
                 elif self.cfg.get("io_faults") and op["op"] in ("get", "head", "propfind", "report") and self.io_armed < 3 and self.frng.random() < 0.15:
                     op["read_fault"] = {"after": self.frng.randint(1, 30), "errno": self.frng.choice(["EIO", "EMFILE"])}
                     self.io_armed += 1
